@@ -482,16 +482,22 @@ impl H263State {
             }
 
             let this_tr = next_decoded_picture.as_header().temporal_reference;
-            self.last_picture = Some(this_tr);
-            if !next_decoded_picture
+            let is_disposable = next_decoded_picture
                 .as_header()
                 .picture_type
-                .is_disposable()
-            {
-                self.reference_picture = Some(this_tr);
+                .is_disposable();
+
+            // Pictures are stored under their temporal reference. A disposable picture is
+            // never referenced again, so it is stored under a key no temporal reference (at
+            // most ten bits) can take: under its own it would replace a reference picture
+            // that happens to carry the same temporal reference.
+            let this_key = if is_disposable { u16::MAX } else { this_tr };
+            self.last_picture = Some(this_key);
+            if !is_disposable {
+                self.reference_picture = Some(this_key);
             }
 
-            self.reference_states.insert(this_tr, next_decoded_picture);
+            self.reference_states.insert(this_key, next_decoded_picture);
             self.cleanup_buffers();
 
             reader.commit();
